@@ -44,6 +44,8 @@ pub(super) trait SolveIteration<I: Interner>: SolveDatabase<I> {
         should_continue: impl std::ops::Fn() -> bool + Clone,
     ) -> Fallible<Solution<I>> {
         if !should_continue() {
+            #[cfg(chalk_verif)]
+            chalk_ir::verif::emit("RInterrupted", |_| {});
             return Ok(Solution::Ambig(Guidance::Unknown));
         }
 
